@@ -12,7 +12,7 @@
 From Coq Require Import List ZArith Bool Arith.
 From Coq Require Import Lia.
 From PV Require Import C06.Model C06.Spec C06.Proofs C06.ProofsArpa.
-From PV Require Import C06.BuildClosure C06.BuildTrie C06.BuildEnd.
+From PV Require Import C06.BuildClosure C06.BuildTrie C06.BuildEnd C06.BuildTotal C06.BuildInfer.
 Import ListNotations.
 Local Open Scope Z_scope.
 
@@ -176,10 +176,26 @@ Theorem c06_build_trie_ok : forall V s dicts bt,
 Proof. exact build_trie_ok. Qed.
 Print Assumptions c06_build_trie_ok.
 
+(* the constructor succeeds on every well-formed table (in particular the assertions of
+   _infer_max_direct_descendants hold: a node has at most V + shift children), so the theorems below
+   are not vacuous for any of them *)
+Theorem c06_build_trie_total : forall V s dicts,
+  wf_dicts V s dicts = true -> exists bt, build_trie V s dicts = Some bt.
+Proof. exact build_trie_total. Qed.
+Print Assumptions c06_build_trie_total.
+
+(* conversely the inputs it rejects: no dictionary, an empty highest-order dictionary, a key of the
+   wrong length or with a token outside range(vocab_size) + {sos} *)
+Theorem c06_build_trie_requires : forall V s dicts bt, build_trie V s dicts = Some bt ->
+  dicts <> [] /\ last dicts [] <> [] /\
+  forallb (fun p => keys_okb V s (fst p) (snd p)) (combine (seq 1 (length dicts)) dicts) = true.
+Proof. exact build_trie_some_requires. Qed.
+Print Assumptions c06_build_trie_requires.
+
 (* end to end, one batch element and one window of N-1 tokens (vocabulary ids or sos): build, rename
    the window as the lookup does, descend = the recursion on the caller's table *)
-Theorem c06_build_then_lookup_is_katz : forall V s dicts bt w v hidx,
-  wf_dicts V s dicts = true -> build_trie V s dicts = Some bt ->
+Theorem c06_build_then_lookup_is_katz : forall V s dicts bt,
+  wf_dicts V s dicts = true -> build_trie V s dicts = Some bt -> forall w v hidx,
   (length w = length dicts - 1)%nat -> (1 <= length w)%nat ->
   Forall (tok_ok V s) w -> 0 <= v < V -> Z.of_nat (length w) <= hidx ->
   lookup1 (bt_bufs bt) (built_shape V s bt) hidx (mapwin (built_shape V s bt) w) v =
@@ -189,16 +205,16 @@ Print Assumptions c06_build_then_lookup_is_katz.
 
 (* the same for the batch entry points: one index, per-element indices, all positions in chunks of
    any size, __call__ without and with an index (negative ones included) *)
-Theorem c06_build_then_one_index_is_katz : forall V s dicts bt hist B i,
-  wf_dicts V s dicts = true -> build_trie V s dicts = Some bt ->
+Theorem c06_build_then_one_index_is_katz : forall V s dicts bt,
+  wf_dicts V s dicts = true -> build_trie V s dicts = Some bt -> forall hist B i,
   hist_ok (built_shape V s bt) hist B -> (i <= length hist)%nat ->
   lookup_batch (bt_bufs bt) (built_shape V s bt) hist B (Scalar (Z.of_nat i)) =
   Some (spec_at (table_of dicts) (length dicts) V s hist B (repeat i B)).
 Proof. exact build_then_index. Qed.
 Print Assumptions c06_build_then_one_index_is_katz.
 
-Theorem c06_build_then_per_element_index_is_katz : forall V s dicts bt hist B l,
-  wf_dicts V s dicts = true -> build_trie V s dicts = Some bt ->
+Theorem c06_build_then_per_element_index_is_katz : forall V s dicts bt,
+  wf_dicts V s dicts = true -> build_trie V s dicts = Some bt -> forall hist B l,
   hist_ok (built_shape V s bt) hist B -> length l = B -> (2 <= B)%nat ->
   Forall (fun i => (i <= length hist)%nat) l ->
   lookup_batch (bt_bufs bt) (built_shape V s bt) hist B (Vec (map Z.of_nat l)) =
@@ -206,30 +222,62 @@ Theorem c06_build_then_per_element_index_is_katz : forall V s dicts bt hist B l,
 Proof. exact build_then_index_vector. Qed.
 Print Assumptions c06_build_then_per_element_index_is_katz.
 
-Theorem c06_build_then_full_is_katz_any_chunk : forall V s dicts bt hist B chunk,
-  wf_dicts V s dicts = true -> build_trie V s dicts = Some bt ->
+Theorem c06_build_then_full_is_katz_any_chunk : forall V s dicts bt,
+  wf_dicts V s dicts = true -> build_trie V s dicts = Some bt -> forall hist B chunk,
   hist_ok (built_shape V s bt) hist B -> (1 <= chunk)%nat ->
   chunked (bt_bufs bt) (built_shape V s bt) hist B chunk =
   Some (spec_full (table_of dicts) (length dicts) V s hist B).
 Proof. exact build_then_chunked. Qed.
 Print Assumptions c06_build_then_full_is_katz_any_chunk.
 
-Theorem c06_build_then_call_full_is_katz : forall V s dicts bt hist B,
-  wf_dicts V s dicts = true -> build_trie V s dicts = Some bt ->
+Theorem c06_build_then_call_full_is_katz : forall V s dicts bt,
+  wf_dicts V s dicts = true -> build_trie V s dicts = Some bt -> forall hist B,
   hist_ok (built_shape V s bt) hist B ->
   forward (bt_bufs bt) (built_shape V s bt) hist B None =
   Some (Full (spec_full (table_of dicts) (length dicts) V s hist B)).
 Proof. exact build_then_forward_full. Qed.
 Print Assumptions c06_build_then_call_full_is_katz.
 
-Theorem c06_build_then_call_with_index_is_katz : forall V s dicts bt hist B i,
-  wf_dicts V s dicts = true -> build_trie V s dicts = Some bt ->
+Theorem c06_build_then_call_with_index_is_katz : forall V s dicts bt,
+  wf_dicts V s dicts = true -> build_trie V s dicts = Some bt -> forall hist B i,
   hist_ok (built_shape V s bt) hist B -> - zlen hist - 1 <= i <= zlen hist ->
   forward (bt_bufs bt) (built_shape V s bt) hist B (Some (Scalar i)) =
   Some (AtIdx (spec_at (table_of dicts) (length dicts) V s hist B
                  (repeat (Z.to_nat ((i + zlen hist + 1) mod (zlen hist + 1))) B))).
 Proof. exact build_then_forward_index. Qed.
 Print Assumptions c06_build_then_call_with_index_is_katz.
+
+(* "after the model is saved and loaded into a freshly constructed instance": FULL.  For every
+   well-formed table, load_state_dict's inference on the buffers build_trie returns yields exactly the
+   constants build_trie computed (N, max_ngram_nodes, max_direct_descendants) ... *)
+Theorem c06_infer_shape_roundtrip : forall V s dicts bt,
+  wf_dicts V s dicts = true -> build_trie V s dicts = Some bt ->
+  infer_shape V s (bt_bufs bt) = Some (bt_order bt, bt_gnodes bt, bt_maxdesc bt).
+Proof. exact infer_shape_roundtrip. Qed.
+Print Assumptions c06_infer_shape_roundtrip.
+
+(* ... hence the premise of c06_reload_same_partial always holds for built models: the reloaded
+   instance exists and computes the same outputs as the saved one for every query *)
+Theorem c06_reload_same : forall V s dicts bt,
+  wf_dicts V s dicts = true -> build_trie V s dicts = Some bt ->
+  (exists N G S_, infer_shape V s (bt_bufs bt) = Some (N, G, S_)) /\
+  forall N G S_, infer_shape V s (bt_bufs bt) = Some (N, G, S_) ->
+  forall hist B ix,
+    forward (bt_bufs bt) (mkShape V s N G (Z.to_nat S_)) hist B ix =
+    forward (bt_bufs bt) (built_shape V s bt) hist B ix.
+Proof. exact reload_same_full. Qed.
+Print Assumptions c06_reload_same.
+
+(* every offset _build_trie writes fits the integer type it allocates beforehand from
+   max_potential_offset = max_n (len(prob_dicts[n]) + len(prob_dicts[n-1])) over the closed
+   dictionaries -- the bound of the repaired code (finding F33: the original bound was one smaller
+   and the uint8 / int16 buffer wrapped when it was hit exactly).  [closed V s top lower] is the
+   closed, completed, renamed list of dictionaries (lowest order first) that the model computes. *)
+Theorem c06_build_offsets_fit : forall V s dicts bt top lower,
+  wf_dicts V s dicts = true -> build_trie V s dicts = Some bt -> rev dicts = top :: lower ->
+  Forall (fun o => 1 <= o <= max_potential_offset (closed V s top lower)) (offsets (bt_bufs bt)).
+Proof. exact build_offsets_fit. Qed.
+Print Assumptions c06_build_offsets_fit.
 
 (* ---------- non-vacuity ---------------------------------------------------------------------------- *)
 
@@ -286,3 +334,13 @@ Example c06_build_nonvacuous :
   wf_dicts 2 0 [[]; [([1; 0], (NInf, Fin 0)); ([0; 0], (Fin (-3), NaN))]] = true /\
   option_map bt_order (build_trie 2 0 [[]; [([1; 0], (NInf, Fin 0)); ([0; 0], (Fin (-3), NaN))]]) = Some 2%nat.
 Proof. split; [vm_compute; reflexivity|]. split; vm_compute; reflexivity. Qed.
+
+(* the bound of c06_build_offsets_fit is attained: the table of finding F33 (254 unigrams, two
+   bigrams under the first unigram) has max_potential_offset = 256 = its largest offset *)
+Example c06_offsets_bound_tight_nonvacuous :
+  let dicts := [[([0], (Fin (-8), Fin (-4)))]; [([0; 0], (Fin (-2), Fin 0)); ([1; 0], (Fin (-2), Fin 0))]] in
+  wf_dicts 254 0 dicts = true /\
+  max_potential_offset (closed 254 0 [([0; 0], (Fin (-2), Fin 0)); ([1; 0], (Fin (-2), Fin 0))]
+                               [[([0], (Fin (-8), Fin (-4)))]]) = 256 /\
+  option_map (fun bt => zmax_list (offsets (bt_bufs bt)) 0) (build_trie 254 0 dicts) = Some 256.
+Proof. cbv zeta. split; [vm_compute; reflexivity|]. split; vm_compute; reflexivity. Qed.
